@@ -7,7 +7,56 @@
 #include <cstdio>
 #include <string>
 #include <vector>
+#include <algorithm>
+#include <new>
+#include <stdexcept>
+#include <type_traits>
+#include <oneapi/tbb/combinable.h>
 using namespace std::chrono_literals;
+// An allocator whose allocations of the ETS hash-table arrays (rebound to uintptr_t by enumerable_thread_specific::create_array) can be made to throw.
+static std::atomic<int> g_fail_arrays{0};
+template <typename T> struct FailingArrayAlloc {
+    using value_type = T;
+    FailingArrayAlloc() = default; template <typename U> FailingArrayAlloc(const FailingArrayAlloc<U>&) {}
+    T* allocate(std::size_t n) {
+        if (std::is_same<T, std::uintptr_t>::value && g_fail_arrays.load() > 0) { --g_fail_arrays; throw std::bad_alloc(); }
+        return static_cast<T*>(::operator new(n * sizeof(T), std::align_val_t(128)));
+    }
+    void deallocate(T* p, std::size_t) { ::operator delete(p, std::align_val_t(128)); }
+    template <typename U> bool operator==(const FailingArrayAlloc<U>&) const { return true; }
+    template <typename U> bool operator!=(const FailingArrayAlloc<U>&) const { return false; }
+};
+// fault domain "table allocation throws": the first local() of a thread creates the element, then fails to allocate the table; the thread's retry creates a second element
+static bool ets_fault_array_recipe(std::string& why) {
+    std::atomic<int> inits{0};
+    tbb::enumerable_thread_specific<int, FailingArrayAlloc<int>> ets([&] { ++inits; return 5; });
+    g_fail_arrays = 1; bool threw = false;
+    try { ets.local(); } catch (std::bad_alloc&) { threw = true; }
+    g_fail_arrays = 0;
+    bool ex = true; ets.local(ex);
+    int visited = 0, sum = 0; ets.combine_each([&](int v) { ++visited; sum += v; });
+    if (threw && (inits.load() != 1 || ets.size() != 1 || visited != 1)) {
+        why = "enumerable_thread_specific<int>(finit=5), ONE thread: the first local() threw bad_alloc from the hash-table allocation after the element had been created; local() again: exists=" + std::to_string(ex) +
+              ", initialiser calls=" + std::to_string(inits.load()) + ", size()=" + std::to_string(ets.size()) + ", combine_each visited " + std::to_string(visited) + " elements (sum " + std::to_string(sum) + " instead of 5)";
+        return true;
+    }
+    return false;
+}
+// fault domain "initialiser throws": the element appended to the container is never constructed, yet iteration / combine visit it
+static bool ets_fault_init_recipe(std::string& why) {
+    int calls = 0;
+    tbb::combinable<long> c([&]() -> long { if (calls++ == 0) throw std::runtime_error("init"); return 5; });
+    bool threw = false;
+    try { c.local(); } catch (std::runtime_error&) { threw = true; }
+    c.local() += 1;
+    int visited = 0; long first = -1; c.combine_each([&](long v) { if (visited++ == 0) first = v; });
+    if (threw && visited != 1) {
+        why = "combinable<long>(finit throws on its first call), ONE thread: local() threw, local() again returned a fresh element; combine_each then visited " + std::to_string(visited) +
+              " elements, the first being the never-constructed storage left behind by the failed call (read as " + std::to_string(first) + ")";
+        return true;
+    }
+    return false;
+}
 static bool once_recipe(std::string& why) {
     for (int round = 0; round < 5; ++round) {
         tbb::collaborative_once_flag flag; std::atomic<int> attempts{0}, completed{0}; std::atomic<bool> winner_inside{false};
@@ -58,16 +107,65 @@ static bool once_overflow_recipe(std::string& why) {
                why = std::string("collaborative_call_once with 127 helper references outstanding: one more caller took a reference; ") + buf; return true; }
     return false;
 }
+// waves of threads make the table grow (4 -> 8 -> ... slots) while earlier threads keep calling local(): same address, exists == true, one element per thread, all distinct
 static bool ets_recipe(std::string& why) {
-    tbb::enumerable_thread_specific<int> ets([] { return 7; }); std::atomic<int> bad{0};
-    std::vector<std::thread> ts;
-    for (int t = 0; t < 16; ++t) ts.emplace_back([&] { int* p = &ets.local(); for (int i = 0; i < 1000; ++i) { bool ex; int* q = &ets.local(ex); if (q != p || !ex) ++bad; } });
+    for (int round = 0; round < 3; ++round) {
+        std::atomic<int> inits{0}, bad_addr{0}, bad_exists{0}, go{0};
+        tbb::enumerable_thread_specific<long> ets([&] { ++inits; return 1L; });
+        const int NT = 96; std::vector<long*> first(NT, nullptr); std::vector<std::thread> ts;
+        for (int t = 0; t < NT; ++t) ts.emplace_back([&, t] {
+            while (go.load() <= t / 12) std::this_thread::yield();          // 8 waves of 12 threads
+            bool ex = true; long* p = &ets.local(ex); first[t] = p; if (ex) ++bad_exists;
+            for (int i = 0; i < 400; ++i) { bool e2 = false; long* q = &ets.local(e2); if (q != p) ++bad_addr; if (!e2) ++bad_exists; if ((i & 63) == 0) std::this_thread::yield(); }
+            while (go.load() < 9) std::this_thread::yield();                 // stay alive (thread ids are the keys) and look again after every wave has arrived
+            bool e3 = false; if (&ets.local(e3) != p || !e3) ++bad_addr;
+        });
+        for (int w = 1; w <= 8; ++w) { go = w; std::this_thread::sleep_for(3ms); }
+        std::this_thread::sleep_for(10ms); go = 9;
+        for (auto& t : ts) t.join();
+        std::vector<long*> s(first); std::sort(s.begin(), s.end()); bool dup = std::adjacent_find(s.begin(), s.end()) != s.end();
+        long sum = ets.combine([](long a, long b) { return a + b; });
+        if (bad_addr || bad_exists || dup || (int)ets.size() != NT || inits.load() != NT || sum != NT) {
+            why = "enumerable_thread_specific<long>, " + std::to_string(NT) + " threads in 8 waves: size()==" + std::to_string(ets.size()) + ", initialiser calls " + std::to_string(inits.load()) + ", combine(+) of the 1-initialised elements " +
+                  std::to_string(sum) + ", " + std::to_string(bad_addr.load()) + " lookups returned a different element, " + std::to_string(bad_exists.load()) + " wrong exists flags, shared element: " + (dup ? "yes" : "no");
+            return true;
+        }
+    }
+    return false;
+}
+// copy construction from a container whose table has grown (keys of early threads sit in several tables of the chain): one element per thread in the copy
+static bool ets_copy_recipe(std::string& why) {
+    const int NT = 40; std::atomic<int> go{0}, bad{0}; std::atomic<bool> copied{false};
+    tbb::enumerable_thread_specific<long> ets([] { return 0L; });
+    tbb::enumerable_thread_specific<long>* cp = nullptr; std::vector<std::thread> ts;
+    for (int t = 0; t < NT; ++t) ts.emplace_back([&, t] {
+        while (go.load() <= t / 8) std::this_thread::yield();
+        ets.local() = 1000 + t;
+        while (go.load() < 6) std::this_thread::yield();
+        ets.local();                                                          // re-inserted into the newest table: stale copies stay in the older ones
+        ++go;
+        while (!copied.load()) std::this_thread::yield();
+        bool ex = false; long v = cp->local(ex); if (!ex || v != 1000 + t) ++bad;
+    });
+    for (int w = 1; w <= 5; ++w) { go = w; std::this_thread::sleep_for(3ms); }
+    go = 6; while (go.load() < 6 + NT) std::this_thread::yield();
+    tbb::enumerable_thread_specific<long> c(ets); cp = &c;
+    long sum = 0; int n = 0; for (long v : c) { sum += v; ++n; }
+    copied = true;
     for (auto& t : ts) t.join();
-    if (bad || ets.size() != 16) { why = "enumerable_thread_specific: 16 threads, size()==" + std::to_string(ets.size()) + ", " + std::to_string(bad.load()) + " lookups returned a different element"; return true; }
+    long want = 0; for (int t = 0; t < NT; ++t) want += 1000 + t;
+    if (bad || n != NT || (int)c.size() != NT || sum != want) {
+        why = "copy of an enumerable_thread_specific<long> with " + std::to_string(NT) + " thread elements: the copy has size " + std::to_string(c.size()) + ", sum " + std::to_string(sum) + " (expected " + std::to_string(want) + "), " +
+              std::to_string(bad.load()) + " threads did not find the copy of their own element";
+        return true;
+    }
     return false;
 }
 int main(int argc, char** argv) {
     std::string job = argc > 1 ? argv[1] : "", why;
+    if (job.find("fault_array") != std::string::npos) { if (ets_fault_array_recipe(why)) std::printf("REPRODUCED class=ets-orphan-element-after-failed-table-allocation %s\n", why.c_str()); else std::printf("NOT-REPRODUCED\n"); return 0; }
+    if (job.find("fault_init") != std::string::npos) { if (ets_fault_init_recipe(why)) std::printf("REPRODUCED class=ets-unbuilt-element-after-throwing-initialiser %s\n", why.c_str()); else std::printf("NOT-REPRODUCED\n"); return 0; }
+    if (job.find("ets.copy") != std::string::npos) { if (ets_copy_recipe(why)) std::printf("REPRODUCED class=ets-copy %s\n", why.c_str()); else std::printf("NOT-REPRODUCED\n"); return 0; }
     if (job.rfind("once", 0) == 0) { if (once_overflow_recipe(why)) { std::printf("REPRODUCED class=call-once-reference-overflow %s\n", why.c_str()); return 0; }
         if (once_recipe(why)) { std::printf("REPRODUCED class=call-once-returns-early %s\n", why.c_str()); return 0; } }
     else if (ets_recipe(why)) { std::printf("REPRODUCED class=ets %s\n", why.c_str()); return 0; }
